@@ -1,4 +1,4 @@
-"""C11 -- undo and redo are exact inverses (clauses R11.1-R11.11)."""
+"""C11 -- undo and redo are exact inverses (clauses R11.1-R11.12)."""
 from __future__ import annotations
 
 import ast
@@ -87,6 +87,14 @@ def check(ctx, res) -> None:
                                and isinstance(n.ast.value, ast.Call) and call_name(n.ast.value) == "read"
                                and norm(n.ast.value.func.value) == da[0]]
                     wn = cfg.node_containing(dc)
+                    # ... and from nothing else: a constant stored as "previous contents" makes undo WRITE that constant --
+                    # when do created the file, undo leaves an (empty) file where there was none
+                    others = [n for n in cfg.nodes if n.kind == "stmt" and isinstance(n.ast, ast.Assign) and n not in assigns
+                              and any(norm(t).replace("Store", "Load") == norm(old_attr) for t in n.ast.targets)]
+                    if others:
+                        ok = False
+                        why.append(f"do stores `{ast.unparse(others[0].ast.value)}` (line {others[0].lineno}), not text read from the resource, as the contents undo "
+                                   "writes back: for a file that do itself creates, undo leaves a stray file instead of removing it")
                     if not assigns:
                         ok = False
                         why.append("do never saves the previous contents (read of the resource) into the attribute undo writes")
@@ -327,6 +335,9 @@ def check(ctx, res) -> None:
                 f"a change counts as interesting when {'every' if form[0] == 'forall' else 'some'} resource is {'ignored' if form[1] else 'not ignored'}: "
                 "a change set that touches an ordinary file AND an ignored one (a backup, a .pyc) is performed but not put on the undo list -- the next "
                 "undo() reverts the change before it, and this one can never be undone", function=ici.qualname)
+
+    # ---- R11.12 (=R10.13) the handler of a failed selective undo/redo only reorders
+    common.order_only_restore_rule(ctx, res, "R11.12")
 
     # ---- R11.9 (=R12.12) the saved undo/redo lists come back in the order they were saved
     from .c18 import history_order_rule
